@@ -72,7 +72,9 @@ fn string(rng: &mut Rng) -> String {
 }
 
 fn few_strings(rng: &mut Rng) -> String {
-    const S: [&str; 8] = ["a", "b", "B", "é", "日本", "ab", "", "\u{1F600}"];
+    // (incl. strings that are another one plus trailing NULs / a longer prefix: keys abbreviated to a
+    // fixed width or compared through a padded integer would tie them)
+    const S: [&str; 16] = ["a", "b", "B", "é", "日本", "ab", "", "\u{1F600}", "a\u{0}", "a\u{0}\u{0}", "\u{0}", "abcdefgh", "abcdefghi", "abcdefgh\u{0}", "abcdefg", "a\u{1}"];
     S[rng.below(S.len())].to_string()
 }
 
@@ -422,7 +424,10 @@ pub fn run(args: &Args) {
 /// Built-ins over arrays, strings and objects of every size 0..=130 and around the powers of
 /// two up to 1024 (strategy switches at size thresholds), against the reference functions.
 fn size_sweep(rep: &mut Report, args: &Args, ev: &Evaluator, strict: &Opts) {
-    const EXPRS: [&str; 42] = [
+    const EXPRS: [&str; 48] = [
+        // by-functions inside the key expression of by-functions (re-entrancy of whatever they keep between elements)
+        "sort_by(groups, &sort_by(members, &age)[0].age)[*].team", "max_by(groups, &max_by(members, &age).age).team", "sort_by(groups, &min_by(members, &age).age)[-1].team",
+        "map(&sort_by(members, &age)[*].age, groups)", "sort_by(groups, &length(sort_by(members, &age)))[*].team", "min_by(groups, &sum(map(&age, sort_by(members, &age)))).team",
         // the last / first element of a stable sort with ties (not the same element as max_by / min_by return)
         "sort_by(recs, &k)[-1].id", "sort_by(recs, &k)[0].id", "sort_by(recs, &k) | [-1].id", "sort_by(recs, &s)[-1].id", "sort(saw)[-1]", "sort(strs)[0]", "sort_by(recs, &k)[-2:][*].id",
         "reverse(sort_by(recs, &k))[0].id",
@@ -456,6 +461,7 @@ fn size_sweep(rep: &mut Report, args: &Args, ev: &Evaluator, strict: &Opts) {
             "recs": (0..n).map(|i| json!({"id": i, "k": (n - i) / 3, "s": word(i)})).collect::<Vec<Value>>(),
             "str": (0..n).map(|i| ["a", "b", "é", "日", "y", "z"][i % 6]).collect::<String>(),
             "obj": obj, "obj2": obj2,
+            "groups": (0..n.min(40)).map(|g| json!({"team": format!("t{}", g), "members": (0..1 + (g * 7) % 5).map(|m| json!({"age": (g * 31 + m * 17) % 23})).collect::<Vec<Value>>()})).collect::<Vec<Value>>(),
         });
         let input = rcvar_of(&doc);
         for (k, text) in EXPRS.iter().enumerate() {
